@@ -611,6 +611,42 @@ def sec_export(m):
     return lines
 
 
+def sec_traverse(m):
+    # traversal handlers of Node (C06): what getattr(self, f"_iter_{method.value}") and
+    # getattr(cls, f"_visit_{method.value}") can find, and the literal revert/toggle flags of the level variants
+    lines = []
+    ncls = class_def(m["node"], "Node")
+
+    def handler_names(prefix):
+        return [n.name[len(prefix):] for n in ncls.body if isinstance(n, ast.FunctionDef) and n.name.startswith(prefix)]
+
+    def coq_bool(node):
+        if isinstance(node, ast.Constant) and isinstance(node.value, bool):
+            return "true" if node.value else "false"
+        raise Unsupported(f"expected a bool literal at line {getattr(node, 'lineno', '?')}")
+
+    lines.append("Definition NODE_ITER_HANDLERS : list (list Z) := [" + "; ".join(text(s) for s in handler_names("_iter_")) + "].")
+    lines.append("Definition NODE_VISIT_HANDLERS : list (list Z) := [" + "; ".join(text(s) for s in handler_names("_visit_")) + "].")
+    il = func_def(ncls, "_iter_level")
+    kwo = [a.arg for a in il.args.kwonlyargs]
+    if kwo != ["revert", "toggle"] or il.args.args[1:] or il.args.vararg or il.args.kwarg:
+        raise Unsupported("_iter_level signature")
+    flags = [("level", coq_bool(il.args.kw_defaults[0]), coq_bool(il.args.kw_defaults[1]))]
+    for nm in ("level_rtl", "zigzag", "zigzag_rtl"):
+        fn = func_def(ncls, "_iter_" + nm)
+        body = [s for s in fn.body if not (isinstance(s, ast.Expr) and isinstance(s.value, ast.Constant))]
+        if not (len(body) == 1 and isinstance(body[0], ast.Return) and isinstance(body[0].value, ast.Call)):
+            raise Unsupported(f"_iter_{nm} body")
+        call = body[0].value
+        if not (isinstance(call.func, ast.Attribute) and call.func.attr == "_iter_level" and isinstance(call.func.value, ast.Name)
+                and call.func.value.id == "self" and not call.args and [k.arg for k in call.keywords] == ["revert", "toggle"]):
+            raise Unsupported(f"_iter_{nm} call")
+        flags.append((nm, coq_bool(call.keywords[0].value), coq_bool(call.keywords[1].value)))
+    lines.append("Definition NODE_ITER_LEVEL_FLAGS : list (list Z * (bool * bool)) := [" +
+                 "; ".join(f"({text(n)}, ({r}, {t}))" for n, r, t in flags) + "].")
+    return lines
+
+
 def sec_lock(m):
     tree, typed, fs, dot = m["tree"], m["typed"], m["fs"], m["dot"]
     tcls = class_def(tree, "Tree")
@@ -656,6 +692,7 @@ SECTIONS = [
     ("ENUMS", sec_enums, ["common", "diff"]),
     ("MERMAID", sec_mermaid, ["mermaid"]),
     ("EXPORT", sec_export, ["mermaid", "dot"]),
+    ("TRAVERSE", sec_traverse, ["node"]),
     ("LOCK", sec_lock, ["tree", "typed", "fs", "dot", "node"]),
 ]
 FILES = dict(common="common.py", tree="tree.py", typed="typed_tree.py", fs="fs.py", diff="diff.py", mermaid="mermaid.py",
